@@ -300,7 +300,46 @@ def rule_explicit_ranges(ctx):
     ctx.floor(R, "parse error ranges", n, 4)
 
 
+def rule_foreign_locations(ctx):
+    R = "C04.9"
+    ctx.rule(R, "a label's location and its file id come from the same definition: data of another definition, obtained through the analysis context, never supplies a location unless it also supplies the file id")
+    import a10
+
+    n_sources = 0
+    for f in sorted(facts.ast()):
+        if not f.startswith("program_analysis/src/") or f.endswith(("analysis_runner.rs", "analysis_context.rs")):
+            continue
+        for q, fn in fns_in_file(f):
+            if not fn.get("body"):
+                continue
+            # names bound from a lookup of another definition: `context.template(..)`, `context.function(..)`
+            sources = set()
+            for n in walk(fn["body"]):
+                init, pat = (n.get("init"), n.get("pat")) if n["k"] == "Local" else ((n.get("e"), n.get("pat")) if n["k"] == "Let" else (None, None))
+                if init is None or pat is None:
+                    continue
+                if any(m["k"] == "MethodCall" and m["method"] in ("template", "function", "underlying_template", "underlying_function") and render(strip(m["recv"])).endswith("context") for m in walk(init)):
+                    for b in walk(pat):
+                        if b["k"] == "PIdent" and not b["name"][:1].isupper():
+                            sources.add(b["name"])
+            if not sources:
+                continue
+            n_sources += len(sources)
+            reach = set()
+            for s0 in sources:
+                reach |= a10.alias_closure(fn["body"], s0)
+            locs = [m for m in walk(fn["body"]) if m["k"] == "MethodCall" and m["method"] in ("file_location", "location", "get_location") and ({p["path"] for p in walk(m["recv"]) if p["k"] == "Path"} & reach)]
+            locs += [m for m in walk(fn["body"]) if m["k"] == "Field" and m["member"] in ("location", "file_location") and ({p["path"] for p in walk(m["base"]) if p["k"] == "Path"} & reach)]
+            fids = [m for m in walk(fn["body"]) if ((m["k"] == "MethodCall" and m["method"] in ("file_id", "get_file_id")) or (m["k"] == "Field" and m["member"] == "file_id")) and ({p["path"] for p in walk(m.get("recv") or m.get("base")) if p["k"] == "Path"} & reach)]
+            key = "%s::%s/foreign-location-has-its-file-id" % (f.rsplit("/", 1)[-1], fn["name"])
+            ctx.check(R, key, not locs or bool(fids), "a location is read from another definition's data (%s via %s) but no file id is: a label built from it points into the wrong file when that definition lives in an included file" % ([render(x)[:50] for x in locs][:3], sorted(sources)), site(f, locs[0]) if locs else site(f, fn))
+    ctx.floor(R, "lookups of other definitions in the passes", n_sources, 1)
+
+
 def run(ctx):
+    rule_foreign_locations(ctx)
+    ctx.rule("C04.10", "Report::add_primary / add_secondary attach exactly the byte range and file id they are given (no widening, shifting or re-anchoring)")
+    c03.rule_label_passthrough(ctx, "C04.10")
     ctx.include("C04.1", "the comment stripper is equivalent to the reference lexer for all strings - in particular every byte of the input corresponds to exactly one byte of the output (shared with C05.1)", lambda c: c05.run(c), only=["preprocess/"])
     rule_units(ctx)
     rule_original_text(ctx)
